@@ -225,6 +225,191 @@ def make_parse_harness(n: int, two_sets: bool):
     return harness
 
 
+# --------------------------------------------------------------------------- fit / drt commands: what reaches the API, what is printed
+class _FakeFigure:
+    def tight_layout(self, *a, **k):
+        pass
+
+    def suptitle(self, *a, **k):
+        pass
+
+    def savefig(self, *a, **k):
+        pass
+
+
+class _FakeAxis:
+    def legend(self, *a, **k):
+        pass
+
+
+class _FakeMpl:
+    """pyimpspec.mpl stand-in: every plot_* function returns a figure and axes"""
+
+    def __getattr__(self, name):
+        if name.startswith("plot_"):
+            def plot(*a, **k):
+                return (_FakeFigure(), [_FakeAxis(), _FakeAxis()])
+            plot.__name__ = name
+            self.__dict__[name] = plot
+            return plot
+        raise AttributeError(name)
+
+
+class _FakePlt:
+    def show(self, *a, **k):
+        pass
+
+    def close(self, *a, **k):
+        pass
+
+
+def _concrete_data(label="d"):
+    from pyimpspec.data.data_set import DataSet
+    return DataSet([100.0, 10.0, 1.0], [4 + 0j, 3 - 1j, 2 - 2j], label=label, path="p")
+
+
+def make_fit_glue_harness():
+    """cli fit: every call of fit_circuit -- the first one and each refinement -- carries the settings given on the command line, a
+    refinement starts from the previous result's circuit, and the report is built from the last result"""
+    def harness(eng):
+        import pyimpspec
+        import pyimpspec.cli.fit as cf
+        from pyimpspec import parse_cdc
+        max_nfev, num_procs, timeout = eng.integer("max_nfev"), eng.integer("num_procs"), eng.integer("timeout")
+        refinements = eng.choice(3, "num_refinements")
+        method = ("leastsq", "auto", ["leastsq", "nelder"])[eng.choice(3, "method")]
+        weight = ("boukamp", "auto")[eng.choice(2, "weight")]
+        plot_type = ("fit", "nyquist")[eng.choice(2, "plot_type")]
+        args = Namespace(circuit="R(RC)", method=method, weight=weight, max_nfev=max_nfev, num_procs=num_procs, timeout=timeout, num_refinements=refinements,
+                         plot_type=plot_type, plot_no_legend=False, plot_colored_axes=False, plot_admittance=False, plot_title=True, plot_width="10", plot_height="6",
+                         plot_dpi=100, output=False, running_count=False, output_format="csv", output_indices=False, output_significant_digits=6,
+                         low_pass_cutoff=0.0, high_pass_cutoff=0.0, exclude_indices=[], input=["p"], nth_data_set=[])
+        calls, results, frames, printed = [], [], [], []
+
+        class Result:
+            def __init__(self, k):
+                self.k = k
+                self.circuit = parse_cdc("R(RC)")
+
+            def get_label(self):
+                return "fit%d" % self.k
+
+            def to_parameters_dataframe(self, running=False):
+                return ("parameters", self.k)
+
+            def to_statistics_dataframe(self):
+                return ("statistics", self.k)
+
+        def fit_circuit(circuit, **kw):
+            calls.append((circuit, kw))
+            results.append(Result(len(results)))
+            return results[-1]
+
+        def fmt(df, a):
+            frames.append(df)
+            return "<%s %s>" % df
+        saved = (pyimpspec.fit_circuit, pyimpspec.mpl, cf.parse_inputs, cf.format_text, cf.set_figure_size, cf.plt, cf.get_backend, cf.clear_default_handler_output)
+        pyimpspec.fit_circuit, pyimpspec.mpl = fit_circuit, _FakeMpl()
+        cf.parse_inputs, cf.format_text = (lambda a: {"p": [_concrete_data()]}), fmt
+        cf.set_figure_size, cf.plt, cf.get_backend, cf.clear_default_handler_output = (lambda *a, **k: None), _FakePlt(), (lambda: "agg"), (lambda: None)
+        try:
+            ok, res = call(cf.command, None, args, print_func=printed.append)
+        finally:
+            (pyimpspec.fit_circuit, pyimpspec.mpl, cf.parse_inputs, cf.format_text, cf.set_figure_size, cf.plt, cf.get_backend, cf.clear_default_handler_output) = saved
+        eng.check(ok, "fitcmd:completes", lambda: "%r" % (res,))
+        if not ok:
+            return
+        eng.check(len(calls) == 1 + refinements, "fitcmd:one fit plus the requested refinements", lambda: "%d calls" % len(calls))
+        for i, (circuit, kw) in enumerate(calls):
+            for name, want in (("method", method), ("weight", weight), ("max_nfev", max_nfev), ("num_procs", num_procs), ("timeout", timeout)):
+                got = kw.get(name, "<not passed>")
+                eng.check((got is want) or (not isinstance(got, str) and not isinstance(want, (str, list)) and bool(same(got, want))) or (isinstance(want, (str, list)) and got == want),
+                          "fitcmd:every fit (refinements included) uses the settings given on the command line", lambda: "call %d: %s=%r, expected %r" % (i, name, got, want))
+            if i == 0:
+                eng.check(circuit.to_string() == parse_cdc("R(RC)").to_string(), "fitcmd:the first fit starts from the circuit given on the command line")
+            else:
+                eng.check(circuit is results[i - 1].circuit, "fitcmd:a refinement starts from the previous result")
+        last = len(results) - 1
+        eng.check(("parameters", last) in frames and ("statistics", last) in frames and not any(f[1] != last for f in frames),
+                  "fitcmd:the report shows the parameters and statistics of the final fit", lambda: "%r" % (frames,))
+        eng.check(any("<parameters %d>" % last in str(x) for x in printed), "fitcmd:the report is printed")
+        eng.reached("fitcmd")
+    return harness
+
+
+def make_drt_glue_harness():
+    """cli drt --plot-overlay: each spectrum's tables (statistics, peaks above the requested threshold, scores for BHT) come from that
+    spectrum's own result, computed with the settings given on the command line"""
+    def harness(eng):
+        import pyimpspec
+        import pyimpspec.cli.drt as cd
+        n_sets = 2 + eng.choice(2, "extra_set")
+        method = ("tr-nnls", "bht")[eng.choice(2, "method")]
+        threshold = eng.real("peak_threshold")
+        lam = eng.real("lambda_value")
+        max_nfev = eng.integer("max_nfev")
+        opts = dict(method=method, mode="real", lambda_value=lam, cross_validation="gcv", rbf_type="gaussian", derivative_order=1, rbf_shape="fwhm", shape_coeff=0.5,
+                    inductance=False, credible_intervals=False, timeout=60, num_samples=2000, num_attempts=10, maximum_symmetry=0.5, circuit="R(RC)", gaussian_width=0.15,
+                    num_per_decade=10, max_nfev=max_nfev, max_iter=-1, model_order=0, model_order_method="matrix_rank", num_procs=1)
+        args = Namespace(peak_threshold=threshold, plot_color=[], plot_frequency=False, plot_no_legend=False, plot_dpi=100, output=False, output_name=[""],
+                         output_format="csv", output_indices=False, output_significant_digits=6, low_pass_cutoff=0.0, high_pass_cutoff=0.0, exclude_indices=[], **opts)
+        sets = [_concrete_data("s%d" % k) for k in range(n_sets)]
+        calls, frames, printed = [], [], []
+
+        class DRT:
+            def __init__(self, k):
+                self.k = k
+
+            def to_statistics_dataframe(self):
+                return ("statistics", self.k, None)
+
+            def to_peaks_dataframe(self, threshold=0.0):
+                return ("peaks", self.k, threshold)
+
+            def to_scores_dataframe(self):
+                return ("scores", self.k, None)
+
+        def calculate_drt(data, **kw):
+            calls.append((data, kw))
+            return DRT(len(calls) - 1)
+
+        def fmt(df, a):
+            frames.append(df)
+            return "<%s %s>" % (df[0], df[1])
+        saved = (pyimpspec.calculate_drt, pyimpspec.mpl, cd.format_text, cd.plt, cd.clear_default_handler_output, cd.get_color)
+        pyimpspec.calculate_drt, pyimpspec.mpl = calculate_drt, _FakeMpl()
+        cd.format_text, cd.plt, cd.clear_default_handler_output, cd.get_color = fmt, _FakePlt(), (lambda: None), (lambda c: "black")
+        try:
+            ok, res = call(cd.overlay_plot, {"p": list(sets)}, args, printed.append)
+        finally:
+            pyimpspec.calculate_drt, pyimpspec.mpl, cd.format_text, cd.plt, cd.clear_default_handler_output, cd.get_color = saved
+        eng.check(ok, "drtcmd:completes", lambda: "%r" % (res,))
+        if not ok:
+            return
+        eng.check(len(calls) == n_sets and all(c[0] is d for c, d in zip(calls, sets)), "drtcmd:one DRT per spectrum, in order")
+        for data, kw in calls:
+            for name, want in opts.items():
+                if name == "circuit":
+                    continue
+                got = kw.get(name, "<not passed>")
+                eng.check((got is want) or (is_symbolic(got) and bool(same(got, want))) or (not is_symbolic(got) and not is_symbolic(want) and got == want),
+                          "drtcmd:every DRT is calculated with the settings given on the command line", lambda: "%s=%r, expected %r" % (name, got, want))
+        want_frames = []
+        show_peaks = bool(threshold >= 0.0)
+        for k in range(n_sets):
+            want_frames.append(("statistics", k))
+            if show_peaks:
+                want_frames.append(("peaks", k))
+            if method == "bht":
+                want_frames.append(("scores", k))
+        eng.check([f[:2] for f in frames] == want_frames, "drtcmd:each spectrum is followed by the tables of its own result", lambda: "%r vs %r" % ([f[:2] for f in frames], want_frames))
+        for f in frames:
+            if f[0] == "peaks":
+                eng.check(bool(same(f[2], threshold)), "drtcmd:peaks are listed above the requested threshold")
+        eng.reached("drtcmd")
+    return harness
+
+
 def obligations(tier: str):
     from sx.runner import Obligation
     import pyimpspec.cli.utility as cu
@@ -250,6 +435,13 @@ def obligations(tier: str):
                               bounds="cli parse command on %d data set(s) of %d symbolic points, symbolic low-/high-pass cut-offs (any sign), every subset of excluded indices incl. one out of range"
                                      % (2 if two else 1, n), functions=[cp.command, cu.apply_filters, ds.DataSet.low_pass, ds.DataSet.high_pass, ds.DataSet.set_mask, ds.DataSet.to_dataframe],
                               stubs=stubs, expect_reach=["parse"], max_paths=2000000))
+    import pyimpspec.cli.fit as cf
+    import pyimpspec.cli.drt as cd
+    gstubs = ["fit_circuit / calculate_drt are recorders returning tagged results; pyimpspec.mpl, matplotlib.pyplot, format_text, parse_inputs are stand-ins"]
+    obs.append(Obligation("fit.glue", make_fit_glue_harness(), bounds="cli fit command: symbolic max_nfev / num_procs / timeout, 0..2 refinements, 3 method and 2 weight spellings, 2 plot types",
+                          functions=[cf.command], stubs=gstubs, expect_reach=["fitcmd"]))
+    obs.append(Obligation("drt.glue", make_drt_glue_harness(), bounds="cli drt --plot-overlay: 2..3 spectra, symbolic peak threshold (any sign), lambda and max_nfev, methods tr-nnls / bht",
+                          functions=[cd.overlay_plot], stubs=gstubs, expect_reach=["drtcmd"]))
     for o in obs:
         o.replay = o.harness
     return obs
@@ -262,8 +454,8 @@ EXPLANATION = (
 )
 ASSUMPTIONS = ["identifiers contain ':' only inside brackets (mock identifiers have none; in a circuit description code a colon only occurs inside braces)",
                "value texts contain no white space, none of ':' ',' '=' '_', no brackets and none of the letters of inf / nan / infinity (those spellings are outside)", "floats as reals; numerals as uninterpreted numbers"]
-OUTSIDE = ["text formatting of numbers (pandas to_csv / to_markdown / to_json / to_latex)", "argparse, configuration files, output files", "the commands circuit --simulate, fit, drt, test, zhit, plot "
-           "(matplotlib and the numerical pipelines)", "--average-data-sets", "that generate_mock_data itself is deterministic (C17)"]
+OUTSIDE = ["text formatting of numbers (pandas to_csv / to_markdown / to_json / to_latex)", "argparse, configuration files, output files", "the commands circuit --simulate, test, zhit, plot and "
+           "drt without --plot-overlay; matplotlib and the numerical pipelines behind fit / drt (only what the commands hand to the API and which result they print is decided)", "--average-data-sets", "that generate_mock_data itself is deterministic (C17)"]
 
 
 def replay(obligation: str, witness):
